@@ -128,6 +128,20 @@ extra2 = {
  "C19": " One file reached through every table-object form in one transaction, tables without columns as operands and whole rows where one value is expected, repeated names in name lists, window frames that hold no row, wildcard patterns and a data-changing statement called from a data-changing statement under a watchdog (the latter a known finding).",
  "C20": " Statements evaluated by several goroutines that load a table through a sub-query (B commits at the moment a second load would start); describing commands (SHOW FIELDS / SHOW TABLES) in A's histories.",
 }
+extra3 = {
+ "C03": " Columns addressed by number (table.N) behind USING / NATURAL joins.",
+ "C04": " Key triples around the escape character of the key serialisation.",
+ "C05": " REPLACE keys given as numbers of the other kind.",
+ "C06": " The same texts compared again after the session's datetime format was replaced.",
+ "C07": " Words among words that read as booleans.",
+ "C14": " Values read after overflowing integer arithmetic.",
+ "C15": " A function shadowing an aggregate of the same name and back.",
+ "C16": " Positions given as floats beyond every integer; a WHILE IN loop whose body closes or disposes its cursor.",
+ "C17": " Datetimes in a format of the session as ORDER BY / PARTITION BY keys of OVER.",
+ "C18": " Runs of blanks and non-ASCII blanks in literals of composite expressions.",
+}
+for k, add in extra3.items():
+    extra2[k] = extra2.get(k, "") + add
 for k, add in extra2.items():
     extra[k] = extra.get(k, "") + add
 for k, add in extra.items():
